@@ -124,7 +124,14 @@ enum Class {
     Bad,
 }
 
+/// set while a round runs in which some writer's payload is empty (`sizes` contains 0): only then is an empty file
+/// at the final path one writer's complete payload
+static EMPTY_OK: AtomicBool = AtomicBool::new(false);
+
 fn classify(bytes: &[u8], seed: u64) -> Class {
+    if bytes.is_empty() && EMPTY_OK.load(Ordering::SeqCst) {
+        return Class::Complete(u64::MAX);
+    }
     let Some(nl) = bytes.iter().position(|&b| b == b'\n') else { return Class::Bad };
     let Ok(head) = std::str::from_utf8(&bytes[..nl]) else { return Class::Bad };
     let w: Vec<&str> = head.split(' ').collect();
@@ -332,18 +339,24 @@ fn list(s: &str) -> Vec<&str> {
     }
 }
 
-fn flock_threads_of(pid: u32) -> usize {
-    let mut n = 0;
+fn flock_tids_of(pid: u32) -> Vec<u32> {
+    let mut v = Vec::new();
     if let Ok(rd) = std::fs::read_dir(format!("/proc/{pid}/task")) {
         for e in rd.flatten() {
             if let Ok(comm) = std::fs::read_to_string(e.path().join("comm")) {
                 if comm.trim() == "flock" {
-                    n += 1;
+                    if let Some(t) = e.file_name().to_str().and_then(|t| t.parse().ok()) {
+                        v.push(t);
+                    }
                 }
             }
         }
     }
-    n
+    v
+}
+
+fn flock_threads_of(pid: u32) -> usize {
+    flock_tids_of(pid).len()
 }
 
 static DIR_COUNTER: AtomicU64 = AtomicU64::new(0);
@@ -624,7 +637,21 @@ fn solo_in_process(dest: &Path, seed: u64, id: u64, chunks: usize) -> Outcome {
 // process mode: creators are re-exec'd children of this binary
 
 /// `--c16-child <dest> <seed> <id> arrive` | `… solo:<chunks>:<fate>`
+extern "C" fn noop_handler(_: libc::c_int) {}
+
 fn child_main(args: &[String]) -> ! {
+    if std::env::var("C16_EMPTY_OK").is_ok() {
+        EMPTY_OK.store(true, Ordering::SeqCst);
+    }
+    // SIGUSR1 without SA_RESTART: a signal sent to a thread that is blocked in flock(2) makes the call return
+    // EINTR (the retry loops of file_creation.rs:189-200 / :233-244)
+    unsafe {
+        let mut sa: libc::sigaction = std::mem::zeroed();
+        sa.sa_sigaction = noop_handler as usize;
+        sa.sa_flags = 0;
+        libc::sigemptyset(&mut sa.sa_mask);
+        libc::sigaction(libc::SIGUSR1, &sa, std::ptr::null_mut());
+    }
     let dest = PathBuf::from(&args[0]);
     let seed: u64 = args[1].parse().unwrap();
     let id: u64 = args[2].parse().unwrap();
@@ -756,6 +783,9 @@ fn spawn_kid(sh: &Arc<ShP>, c: usize, id: u64, mode: &str, strace: Option<Vec<St
         }
         None => Command::new(&exe),
     };
+    if EMPTY_OK.load(Ordering::SeqCst) {
+        cmd.env("C16_EMPTY_OK", "1");
+    }
     cmd.arg("--c16-child")
         .arg(&sh.cfg.dest)
         .arg(sh.cfg.seed.to_string())
@@ -841,6 +871,8 @@ fn run_round_procs(
     cfg: RoundCfg,
     n: usize,
     late: usize,
+    cw: usize,
+    sig: usize,
     pre: Option<(String, usize, usize)>,
     lead: Option<(String, usize)>,
     stats: &mut Stats,
@@ -863,7 +895,8 @@ fn run_round_procs(
         *ctl = Ctl { cb_obs_bad: ctl.cb_obs_bad, seen_bad: ctl.seen_bad, ..Ctl::default() };
     }
     let early = n - late;
-    let mut kids: Vec<Option<Kid>> = (0..n).map(|_| None).collect();
+    // kids n..n+cw are waiters that get SIGKILLed while they are blocked in flock
+    let mut kids: Vec<Option<Kid>> = (0..n + cw).map(|_| None).collect();
     let mut first = 0;
     if let Some((point, usec)) = &lead {
         // creator 0 runs under strace with a delay at the chosen system call; it starts alone and the others
@@ -887,7 +920,7 @@ fn run_round_procs(
     let readers_done = |kids: &Vec<Option<Kid>>| -> usize {
         kids.iter().flatten().filter(|k| k.reader.as_ref().map(|r| r.is_finished()).unwrap_or(true)).count()
     };
-    if late > 0 {
+    if late + cw > 0 {
         let t0 = Instant::now();
         loop {
             let gate = sh.ctl.lock().unwrap().gate_reached;
@@ -915,6 +948,34 @@ fn run_round_procs(
                 break;
             }
             std::thread::sleep(tick);
+        }
+        // signals (no SA_RESTART) to every thread that is blocked in flock: the call returns EINTR and is retried
+        for round in 0..sig {
+            for k in kids.iter().flatten() {
+                let pid = k.child.id();
+                for tid in flock_tids_of(pid) {
+                    unsafe {
+                        libc::syscall(libc::SYS_tgkill, pid as libc::c_long, tid as libc::c_long, libc::SIGUSR1 as libc::c_long);
+                    }
+                    stats.bump("eintr_signals_sent");
+                }
+            }
+            std::thread::sleep(Duration::from_millis(if round + 1 < sig { 4 } else { 8 }));
+        }
+        // the `cw` waiters are killed while they are blocked in flock
+        for k in kids.iter().skip(n).flatten() {
+            unsafe {
+                libc::kill(k.child.id() as i32, libc::SIGKILL);
+            }
+        }
+        if cw > 0 {
+            // their readers see EOF; only then may the lock holder go on (a killed waiter must not be granted the lock)
+            let t2 = Instant::now();
+            while t2.elapsed() < Duration::from_secs(5)
+                && !kids.iter().skip(n).flatten().all(|k| k.reader.as_ref().map(|r| r.is_finished()).unwrap_or(true))
+            {
+                std::thread::sleep(tick);
+            }
         }
         let gate_child = sh.ctl.lock().unwrap().gate_child;
         if let Some(g) = gate_child {
@@ -950,6 +1011,9 @@ fn solo_child(dest: &Path, seed: u64, id: u64, chunks: usize, fate: &str, trace_
         }
         None => Command::new(&exe),
     };
+    if EMPTY_OK.load(Ordering::SeqCst) {
+        cmd.env("C16_EMPTY_OK", "1");
+    }
     cmd.arg("--c16-child")
         .arg(dest)
         .arg(seed.to_string())
@@ -993,7 +1057,8 @@ fn run_round(ws: &[&str], stats: &mut Stats) -> Vec<String> {
     let mode = kv(ws, "mode").unwrap_or("threads");
     let n = kv_num(ws, "n", 2);
     let late = kv_num(ws, "late", 0).min(n.saturating_sub(1));
-    let cw = if mode == "threads" { kv_num(ws, "cw", 0) } else { 0 };
+    let cw = kv_num(ws, "cw", 0);
+    let sig = if mode == "procs" { kv_num(ws, "sig", 0).min(3) } else { 0 };
     let fates: Vec<Fate> = list(kv(ws, "fates").unwrap_or("-")).into_iter().map(Fate::parse).collect();
     let sizes: Vec<usize> = list(kv(ws, "sizes").unwrap_or("-")).into_iter().filter_map(|s| s.parse().ok()).collect();
     let seed = kv_num(ws, "seed", 1) as u64;
@@ -1001,6 +1066,7 @@ fn run_round(ws: &[&str], stats: &mut Stats) -> Vec<String> {
     let dest = dir.join("cache.bin");
     let first_ok = fates.iter().take_while(|f| **f != Fate::Ok).count();
     let gate_idx = if late + cw > 0 { Some(first_ok) } else { None };
+    EMPTY_OK.store(sizes.contains(&0), Ordering::SeqCst);
     let cfg = RoundCfg { seed, dest: dest.clone(), fates: fates.clone(), sizes, gate_idx };
     let mut out = Vec::new();
     let observer = Observer::start(dest.clone(), move |p| read_class(p, seed));
@@ -1013,7 +1079,7 @@ fn run_round(ws: &[&str], stats: &mut Stats) -> Vec<String> {
             let (point, usec) = p.split_once(':')?;
             Some((point.to_string(), usec.parse().ok()?))
         });
-        run_round_procs(cfg, n, late, pre, lead, stats)
+        run_round_procs(cfg, n, late, cw, sig, pre, lead, stats)
     } else {
         let (o, c) = run_round_threads(cfg, n, late, cw, stats);
         (None, o, c)
@@ -1060,7 +1126,13 @@ fn run_round(ws: &[&str], stats: &mut Stats) -> Vec<String> {
         stats.bump("rounds_with_late_creators");
     }
     if cw > 0 {
-        stats.bump("rounds_with_cancelled_waiters");
+        stats.bump(if mode == "procs" { "rounds_with_killed_waiters" } else { "rounds_with_cancelled_waiters" });
+    }
+    if sig > 0 {
+        stats.bump("rounds_with_eintr_signals");
+    }
+    if EMPTY_OK.swap(false, Ordering::SeqCst) {
+        stats.bump("rounds_with_empty_payload");
     }
     if let Some(p) = kv(ws, "pre").filter(|p| *p != "-") {
         stats.bump(&format!("pre_kill_{}", p.split('x').next().unwrap().trim_end_matches(char::is_numeric)));
@@ -1713,6 +1785,213 @@ fn symindexfault_line(where_: u64, funcs: usize, seed: u64) -> String {
     format!("symindexfault fsize={fsize} funcs={funcs} isize={isize} seed={seed}")
 }
 
+
+// ---------------------------------------------------------------------------------------------
+// (f) a creator cancelled while a write of its `tokio::fs::File` is in flight
+
+/// two versions of one module's `.sym` (same debug id) and their indexes
+fn two_versions(fa: usize, fb: usize, seed: u64) -> (String, debugid::DebugId, String, Vec<u8>, String, Vec<u8>) {
+    let name = "libverif.so".to_string();
+    let id_hex = format!("{:032X}0", (seed as u128).wrapping_mul(0x9E37_79B9_7F4A_7C15_F39C_C060_5CED_C835) | 1);
+    let debug_id = debugid::DebugId::from_breakpad(&id_hex).expect("debug id");
+    let index_of = |text: &str| {
+        let mut creator = samply_symbols::BreakpadIndexCreator::new();
+        for ch in text.as_bytes().chunks(1000) {
+            creator.consume(ch);
+        }
+        creator.finish().expect("index of generated .sym")
+    };
+    let text_a = sym_file_text(fa, seed, &debug_id.breakpad().to_string(), &name);
+    let text_b = sym_file_text(fb, seed ^ 0x5555, &debug_id.breakpad().to_string(), &name);
+    let (ia, ib) = (index_of(&text_a), index_of(&text_b));
+    (name, debug_id, text_a, ia, text_b, ib)
+}
+
+fn cancelwrite_line(fa: usize, fb: usize, seed: u64) -> String {
+    let (_, _, _, ia, _, ib) = two_versions(fa, fb, seed);
+    format!("cancelwrite site=symindex a={fa} b={fb} isizea={} isizeb={} seed={seed}", ia.len(), ib.len())
+}
+
+/// `--c16-cancelwrite-child <sym dir> <symindex dir> <name> <breakpad id> <part path>`: creator A of the
+/// `.symindex` (`load_symbol_map` -> `ensure_symindex` -> `write_symindex` -> `create_file_cleanly`) on a runtime whose
+/// blocking pool has ONE thread. Dialogue with the parent (lines on stdin / stdout):
+///   STARTED                     A is running (it will block on `dest.lock`, which the parent holds)
+///   < BLOCK, > BLOCKED          the only blocking-pool thread is now occupied: the next `tokio::fs` operation queues
+///   (parent releases the lock: A locks, opens `.part`, `write_all` hands its write to the pool, `flush().await` pends)
+///   > CANCELLED <how> <len>     `.part` was seen, A's future has been dropped; <len> = size of `.part` now
+///   < GO, > DONE                the pool thread is released: the queued write is executed; pool drained
+fn cancelwrite_child_main(args: &[String]) -> ! {
+    let (sym_dir, idx_dir, name, id, part) =
+        (PathBuf::from(&args[0]), PathBuf::from(&args[1]), args[2].clone(), args[3].clone(), PathBuf::from(&args[4]));
+    let debug_id = debugid::DebugId::from_breakpad(&id).expect("debug id");
+    let say = |s: &str| {
+        let mut o = std::io::stdout().lock();
+        let _ = writeln!(o, "{s}");
+        let _ = o.flush();
+    };
+    let wait_line = || {
+        tokio::task::block_in_place(|| {
+            let mut line = String::new();
+            let _ = std::io::stdin().lock().read_line(&mut line);
+            line
+        })
+    };
+    let rt = tokio::runtime::Builder::new_multi_thread().worker_threads(2).max_blocking_threads(1).enable_all().build().unwrap();
+    rt.block_on(async move {
+        let a = tokio::spawn(async move {
+            let config = wholesym::SymbolManagerConfig::new().breakpad_symbol_dir(sym_dir).breakpad_symindex_cache_dir(idx_dir);
+            let sm = wholesym::SymbolManager::with_config(config);
+            sm.load_symbol_map(&name, debug_id).await.is_ok()
+        });
+        say("STARTED");
+        wait_line();
+        let (tx, rx) = std::sync::mpsc::channel::<()>();
+        let (stx, srx) = tokio::sync::oneshot::channel::<()>();
+        let blocker = tokio::task::spawn_blocking(move || {
+            let _ = stx.send(());
+            let _ = rx.recv();
+        });
+        let _ = srx.await;
+        say("BLOCKED");
+        let t = Instant::now();
+        while !part.exists() && !a.is_finished() && t.elapsed() < Duration::from_secs(30) {
+            tokio::time::sleep(Duration::from_millis(1)).await;
+        }
+        // from open(.part) to the first poll of write_all there is no await point; leave it ample time
+        tokio::time::sleep(Duration::from_millis(250)).await;
+        a.abort();
+        let how = match a.await {
+            Err(e) if e.is_cancelled() => "cancelled",
+            Err(_) => "panicked",
+            Ok(_) => "finished",
+        };
+        let len = std::fs::metadata(&part).map(|m| m.len() as i64).unwrap_or(-1);
+        say(&format!("CANCELLED {how} {len}"));
+        wait_line();
+        let _ = tx.send(());
+        let _ = blocker.await;
+        let _ = tokio::task::spawn_blocking(|| ()).await;
+        say("DONE");
+    });
+    std::process::exit(0);
+}
+
+fn load_local(sym_dir: PathBuf, idx_dir: PathBuf, name: &str, debug_id: debugid::DebugId) -> bool {
+    let rt = tokio::runtime::Builder::new_current_thread().enable_all().build().unwrap();
+    rt.block_on(async move {
+        let config = wholesym::SymbolManagerConfig::new().breakpad_symbol_dir(sym_dir).breakpad_symindex_cache_dir(idx_dir);
+        let sm = wholesym::SymbolManager::with_config(config);
+        match sm.load_symbol_map(name, debug_id).await {
+            Ok(map) => map.lookup(wholesym::LookupAddress::Relative(0x1004)).await.is_some(),
+            Err(_) => false,
+        }
+    })
+}
+
+fn run_cancelwrite(ws: &[&str], stats: &mut Stats) -> Vec<String> {
+    use std::os::fd::AsRawFd;
+    let fa = kv_num(ws, "a", 20);
+    let fb = kv_num(ws, "b", 200);
+    let seed = kv_num(ws, "seed", 1) as u64;
+    let dir = work_dir();
+    let (name, debug_id, text_a, index_a, text_b, index_b) = two_versions(fa, fb, seed);
+    if kv_num(ws, "isizea", index_a.len()) != index_a.len() || kv_num(ws, "isizeb", index_b.len()) != index_b.len() || index_a == index_b {
+        let _ = std::fs::remove_dir_all(&dir);
+        return vec!["bad-op".into()];
+    }
+    let sym_dir = dir.join("syms");
+    let idx_dir = dir.join("symindex");
+    let rel = format!("{name}/{}/{name}.sym", debug_id.breakpad());
+    let sym_path = sym_dir.join(&rel);
+    std::fs::create_dir_all(sym_path.parent().unwrap()).unwrap();
+    std::fs::write(&sym_path, &text_a).unwrap();
+    let symindex_path = idx_dir.join(&rel).with_extension("symindex");
+    std::fs::create_dir_all(symindex_path.parent().unwrap()).unwrap();
+    let part_path = with_suffix(&symindex_path, "part");
+    // the harness plays an earlier creator that holds the lock (and then gives up without creating the file)
+    let lock_file = std::fs::OpenOptions::new().write(true).create(true).truncate(false).open(with_suffix(&symindex_path, "lock")).unwrap();
+    unsafe {
+        libc::flock(lock_file.as_raw_fd(), libc::LOCK_EX);
+    }
+    let index_b = Arc::new(index_b);
+    let exp = index_b.clone();
+    let observer = Observer::start(symindex_path.clone(), move |p| match std::fs::read(p) {
+        Ok(b) => {
+            if b == *exp {
+                Class::Complete(0)
+            } else {
+                Class::Bad
+            }
+        }
+        Err(_) => Class::Absent,
+    });
+    let classify = |p: &Path| -> &'static str {
+        match std::fs::read(p) {
+            Ok(b) if b == *index_b => "complete",
+            Ok(_) => "bad",
+            Err(_) => "absent",
+        }
+    };
+    let exe = std::env::current_exe().unwrap();
+    let mut cmd = Command::new(&exe);
+    cmd.arg("--c16-cancelwrite-child").arg(&sym_dir).arg(&idx_dir).arg(&name).arg(debug_id.breakpad().to_string()).arg(&part_path);
+    cmd.stdin(Stdio::piped()).stdout(Stdio::piped()).stderr(Stdio::null());
+    std::os::unix::process::CommandExt::process_group(&mut cmd, 0);
+    let mut child = cmd.spawn().expect("spawn cancelwrite child");
+    CHILD_GROUPS.lock().unwrap().push(child.id());
+    let mut to_child = child.stdin.take().unwrap();
+    let mut from_child = BufReader::new(child.stdout.take().unwrap());
+    let mut expect = |word: &str| -> Option<String> {
+        let mut line = String::new();
+        loop {
+            line.clear();
+            match from_child.read_line(&mut line) {
+                Ok(0) | Err(_) => return None,
+                Ok(_) if line.starts_with(word) => return Some(line.trim().to_string()),
+                Ok(_) => {}
+            }
+        }
+    };
+    let mut how = "lost".to_string();
+    let mut part_len = "-1".to_string();
+    let (mut b_ok, mut after_b) = (false, "absent");
+    if expect("STARTED").is_some() {
+        let t = Instant::now();
+        while flock_threads_of(child.id()) == 0 && t.elapsed() < Duration::from_secs(30) {
+            std::thread::sleep(Duration::from_micros(500));
+        }
+        let _ = writeln!(to_child, "BLOCK");
+        if expect("BLOCKED").is_some() {
+            drop(lock_file);
+            if let Some(l) = expect("CANCELLED") {
+                let w: Vec<&str> = l.split_whitespace().collect();
+                how = w.get(1).unwrap_or(&"?").to_string();
+                part_len = w.get(2).unwrap_or(&"?").to_string();
+                // creator B: another version of the module's .sym, loaded by a fresh SymbolManager in this process
+                std::fs::write(&sym_path, &text_b).unwrap();
+                b_ok = load_local(sym_dir.clone(), idx_dir.clone(), &name, debug_id);
+                after_b = classify(&symindex_path);
+                let _ = writeln!(to_child, "GO");
+                let _ = expect("DONE");
+            }
+        }
+    }
+    let _ = child.kill();
+    let _ = child.wait();
+    let fin = classify(&symindex_path);
+    let (n_obs, bad, _c) = observer.finish();
+    stats.add("cancelwrite_observations", n_obs);
+    stats.bump(&format!("cancelwrite_final_{fin}"));
+    stats.bump(if index_a.len() < index_b.len() { "cancelwrite_a_shorter" } else { "cancelwrite_a_longer" });
+    let _ = std::fs::remove_dir_all(&dir);
+    vec![
+        format!("cancelwrite a={how} part_at_cancel={part_len}"),
+        format!("after_b lookup={} symindex={after_b}", if b_ok { "ok" } else { "err" }),
+        format!("observations bad={}", bad.min(1)),
+        format!("final symindex={fin}"),
+    ]
+}
+
 // ---------------------------------------------------------------------------------------------
 
 pub struct C16;
@@ -1738,6 +2017,12 @@ fn download_line(what: &str, funcs: usize, tail: usize, seed: u64) -> String {
     format!("download fault={fault} funcs={funcs} tail={tail} size={size} seed={seed}")
 }
 
+#[allow(clippy::too_many_arguments)]
+fn round_line_sig(mode: &str, n: usize, late: usize, cw: usize, sig: usize, fates: &[Fate], sizes: &[usize], seed: u64) -> String {
+    format!("{} sig={sig}", round_line(mode, n, late, cw, fates, sizes, "-", 2, "-", seed))
+}
+
+#[allow(clippy::too_many_arguments)]
 fn round_line(mode: &str, n: usize, late: usize, cw: usize, fates: &[Fate], sizes: &[usize], pre: &str, presize: usize, lead: &str, seed: u64) -> String {
     let f = if fates.is_empty() { "-".to_string() } else { fates.iter().map(|f| f.show()).collect::<Vec<_>>().join(",") };
     let s = sizes.iter().map(|s| s.to_string()).collect::<Vec<_>>().join(",");
@@ -1805,6 +2090,21 @@ impl Prop for C16 {
         // waiters cancelled while blocked in flock (threads only)
         push("threads-cancel-waiters".into(), round_line("threads", 3, 1, 2, &[], &[3], "-", 2, "-", next_seed()));
         push("threads-fail-cancel-waiters".into(), round_line("threads", 3, 0, 1, &[Fate::Fail(2)], &[3, 2], "-", 2, "-", next_seed()));
+        // waiters SIGKILLed while blocked in flock; signals (EINTR) to blocked flock threads (processes only)
+        push("procs-kill-waiters".into(), round_line("procs", 3, 1, 2, &[], &[3, 2], "-", 2, "-", next_seed()));
+        push("procs-fail-kill-waiters".into(), round_line("procs", 3, 0, 1, &[Fate::Fail(1)], &[2, 3], "-", 2, "-", next_seed()));
+        push("procs-eintr".into(), round_line_sig("procs", 4, 2, 0, 3, &[], &[2, 3], next_seed()));
+        push("procs-eintr-kill-waiters".into(), round_line_sig("procs", 4, 1, 1, 2, &[Fate::Kill(1)], &[3, 2, 2], next_seed()));
+        // a writer whose complete payload is empty (an empty file at the final path is then a complete file)
+        for mode in ["threads", "procs"] {
+            push(format!("{mode}-empty-payload"), round_line(mode, 3, 0, 0, &[], &[0], "-", 2, "-", next_seed()));
+            push(format!("{mode}-fail-empty-payload"), round_line(mode, 4, 0, 0, &[Fate::Fail(0)], &[2, 0], "-", 2, "-", next_seed()));
+        }
+        // (f) a creator cancelled while a write of its tokio::fs::File is in flight (shorter / longer than the next one)
+        push("cancelwrite-shorter".into(), cancelwrite_line(20, 200, next_seed()));
+        if tier == Tier::Thorough {
+            push("cancelwrite-longer".into(), cancelwrite_line(300, 30, next_seed()));
+        }
         // (c) the call site
         for (m, f) in [(2usize, 50usize), (6, 400)] {
             push(format!("symindex-{m}"), format!("symindex managers={m} funcs={f} seed={}", next_seed()));
@@ -1828,6 +2128,10 @@ impl Prop for C16 {
         }
         if rng.chance(1, 40) {
             return vec![symindexfault_line(*rng.pick(&[0u64, 100, 500, 900, 999, 1000]), rng.range(5, 500) as usize, seed)];
+        }
+        if tier == Tier::Thorough && rng.chance(1, 400) {
+            let (a, b) = if rng.chance(1, 2) { (rng.range(5, 60), rng.range(100, 400)) } else { (rng.range(100, 400), rng.range(5, 60)) };
+            return vec![cancelwrite_line(a as usize, b as usize, seed)];
         }
         if rng.chance(1, 30) {
             let what = *rng.pick(&["none", "fsize-first", "fsize-last", "fsize-last", "fsize-lastbyte", "fsize-exact", "abort-first", "abort-last"]);
@@ -1856,20 +2160,26 @@ impl Prop for C16 {
         // late creators / cancelled waiters need an early creator that succeeds
         let room = n.saturating_sub(nf + 1);
         let late = if room > 0 && rng.chance(1, 2) { rng.range(1, room as u64) as usize } else { 0 };
-        let cw = if !procs && n > nf + late && rng.chance(1, 4) { rng.range(1, 3) as usize } else { 0 };
+        let cw = if n > nf + late && rng.chance(1, 4) { rng.range(1, 3) as usize } else { 0 };
+        let sig = if procs && late + cw > 0 && rng.chance(1, 3) { rng.range(1, 3) as usize } else { 0 };
+        // an empty payload now and then (not with a gate: the gate writer parks after its first chunk)
+        let sizes = if late + cw == 0 && rng.chance(1, 12) { let mut s = sizes; let i = rng.below(s.len() as u64) as usize; s[i] = 0; s } else { sizes };
         let mut pre = "-".to_string();
         let mut lead = "-".to_string();
         if procs && rng.chance(1, 5) {
             let p = *rng.pick(&KILL_POINTS);
             let after_rename = p == "closelock" || p == "unlinklock";
             // a first wave that leaves the destination complete must not be combined with a gate
-            if !(after_rename && late > 0) {
+            if !(after_rename && late + cw > 0) {
                 pre = format!("{p}x{}", rng.range(1, 3));
             }
         } else if procs && tier == Tier::Thorough && rng.chance(1, 10) && fates.first().map(|f| *f == Fate::Ok).unwrap_or(true) {
             lead = format!("{}:{}", rng.pick(&["openpart", "closepart", "rename", "closelock", "unlinklock"]), 20_000 * rng.range(1, 5));
         }
         let presize = rng.range(2, 4) as usize;
+        if sig > 0 && pre == "-" && lead == "-" {
+            return vec![round_line_sig(mode, n, late, cw, sig, &fates, &sizes, seed)];
+        }
         vec![round_line(mode, n, late, cw, &fates, &sizes, &pre, presize, &lead, seed)]
     }
     fn execute(&self, ops: &[String], stats: &mut Stats) -> Vec<String> {
@@ -1903,6 +2213,7 @@ impl C16 {
             Some("symindex") => run_symindex(&ws, stats),
             Some("download") => run_download(&ws, stats),
             Some("symindexfault") => run_symindex_fault(&ws, stats),
+            Some("cancelwrite") => run_cancelwrite(&ws, stats),
             _ => vec!["bad-op".into()],
         }
     }
@@ -1915,6 +2226,9 @@ fn main() {
     }
     if args.get(1).map(|s| s.as_str()) == Some("--c16-download-child") {
         download_child_main(&args[2..]);
+    }
+    if args.get(1).map(|s| s.as_str()) == Some("--c16-cancelwrite-child") {
+        cancelwrite_child_main(&args[2..]);
     }
     if args.get(1).map(|s| s.as_str()) == Some("--c16-symindex-child") {
         symindex_child_main(&args[2..]);
